@@ -389,7 +389,7 @@ func runC03(r *mc.Report, e *Env) {
 	r.Rule = "every case is one call of HeaderValidator.ValidateHeaderAndProof over synthetic trusted accumulators, compared with a reference that knows what was committed at each position; non-trivial = the proof bytes have the container size of the header's era (a Merkle branch is evaluated or an accumulator entry looked up); distinct = distinct (world, case kind, altered node, era, reference verdict, returned error) observations"
 	r.Assume("'never verifies' is enumerated for single-point departures from an honest proof (one bit of one node, one other header, one other slot/number, one node more or fewer, one other era); hash collisions are not searched for")
 	r.Assume("quick inverts one bit per node and position (the bit index runs over 0..255 with the position); thorough inverts 8 bits per node and position and all 256 at positions 0, 1, 4095, 4096, 8190, 8191 of every vector")
-	r.Assume("the summaries provider is used without a beacon oracle: slots beyond the supplied summaries are out of range")
+	r.Assume("main part: the summaries provider is used without a beacon oracle (slots beyond the supplied summaries are out of range); the oracle-backed provider is driven separately through length-3 sequences over a source whose list grows")
 	r.Set("bound", map[string]any{
 		"worlds":              len(c03Worlds),
 		"positions":           map[bool]string{true: "every position 0..8191 of every vector", false: "every 16th position plus first/last/middle and end-of-chain positions of every vector"}[e.Thorough()],
